@@ -1,7 +1,6 @@
 package pongo2
 
 import (
-	"errors"
 	"fmt"
 	"reflect"
 	"strconv"
@@ -248,25 +247,19 @@ func (vr *variableResolver) resolve(ctx *ExecutionContext) (*Value, error) {
 
 	// we are resolving an in-template array definition
 	if len(vr.parts) > 0 && vr.parts[0].typ == varTypeArray {
-		items := make([]*Value, 0)
+		// Every item is a full expression (filters, operators, ...). The list holds the
+		// plain values, like a list that comes from the context, so that what is taken
+		// out of it again is escaped, compared and filtered like any other value.
+		items := make([]any, 0, len(vr.parts))
 		for _, part := range vr.parts {
-			switch v := part.subscript.(type) {
-			case *nodeFilteredVariable:
-				item, err := v.resolver.Evaluate(ctx)
-				if err != nil {
-					return nil, err
-				}
-
-				items = append(items, item)
-			default:
-				return nil, errors.New("unknown variable type is given")
+			item, err := part.subscript.Evaluate(ctx)
+			if err != nil {
+				return nil, err
 			}
+			items = append(items, item.Interface())
 		}
 
-		return &Value{
-			val:  reflect.ValueOf(items),
-			safe: true,
-		}, nil
+		return &Value{val: reflect.ValueOf(items)}, nil
 	}
 
 	for idx, part := range vr.parts {
